@@ -85,7 +85,7 @@ class MergeFamProp(Prop):
     NMAX = 4
     DEPTH = 3
     PTAG = 0.25
-    STYLES = [('flow', 0, 0), ('block', 0, 0), ('flow', 1, 1), ('block', 1, 0), ('blocklit', 0, 0), ('blocklit', 1, 1)]
+    STYLES = [('flow', 0, 0), ('block', 0, 0), ('flow', 1, 1), ('block', 1, 0), ('blocklit', 0, 0), ('blocklit', 1, 1), ('flow', 2, 0), ('block', 3, 0)]
 
     def gen_docs(self, rng, tier):
         return [{'raw': d} for d in G.gen_sequence(rng, self.VOCAB, self.NMAX, self.DEPTH, self.PTAG)]
